@@ -149,9 +149,14 @@ def rules(ctx):
                     touched = True
                 if isinstance(node, ast.Expr) and isinstance(node.value, ast.Call) and call_name(node.value) in ('pop', '__delitem__') \
                         and is_name(node.value.func.value, res or ''):
-                    touched = True
+                    # the removal must address the same (reduced) key the stores use
+                    skeys = {src((st.targets[0] if isinstance(st, ast.Assign) else st.target).slice) for st in stores}
+                    if node.value.args and src(node.value.args[0]) in skeys:
+                        touched = True
                 if isinstance(node, ast.Delete):
-                    touched = True
+                    skeys = {src((st.targets[0] if isinstance(st, ast.Assign) else st.target).slice) for st in stores}
+                    if any(isinstance(t_, ast.Subscript) and src(t_.slice) in skeys for t_ in node.targets):
+                        touched = True
             if ('falsy', kv) in facts and is_sub:
                 continue          # the constant term skipped by subgraph
             if not touched:
